@@ -8,42 +8,44 @@ EXTENDS Server, IOUtils
 
 CONSTANTS MaxSilent
 Rec == ndJsonDeserialize(IOEnv.TRACE)
-VARIABLES l, silent, got    \* got: calls whose response the peer has received
-tvars == <<vars, l, silent, got>>
+VARIABLES l, silent, got,   \* got: calls whose response the peer has received
+          noread           \* connections whose peer stopped reading on its own (its automatic pong could not be written any more)
+tvars == <<vars, l, silent, got, noread>>
 Ev(name) == l <= Len(Rec) /\ Rec[l].ev = name /\ l' = l + 1 /\ silent' = 0
 E == Rec[l]
-TInit == Init /\ l = 1 /\ silent = 0 /\ got = {} /\ TLCSet(1, 0)
+TInit == Init /\ l = 1 /\ silent = 0 /\ got = {} /\ noread = {} /\ TLCSet(1, 0)
 
 T_Reset == /\ Ev("Reset") /\ limit' = E.limit /\ free' = E.limit /\ conn' = [c \in Conns |-> "idle"] /\ call' = [q \in Calls |-> "unsent"]
-           /\ stop' = FALSE /\ acceptLoop' = "accepting" /\ stoppedResolved' = FALSE /\ path' = <<>> /\ got' = {}
-T_Open == Ev("Open") /\ Open(E.c) /\ conn'[E.c] \in {"open", "inService"} /\ UNCHANGED got
-T_PeerSend == /\ Ev("PeerSend") /\ UNCHANGED got
+           /\ stop' = FALSE /\ acceptLoop' = "accepting" /\ stoppedResolved' = FALSE /\ path' = <<>> /\ got' = {} /\ noread' = {}
+T_Open == Ev("Open") /\ Open(E.c) /\ conn'[E.c] \in {"open", "inService"} /\ UNCHANGED <<got, noread>>
+T_PeerSend == /\ Ev("PeerSend") /\ UNCHANGED <<got, noread>>
               /\ IF conn[ConnOfCall[E.q]] \in {"done", "refused", "idle"}
                    THEN /\ call[E.q] = "unsent" /\ call' = [call EXCEPT ![E.q] = "lost"]            \* written into a connection that is gone
                         /\ UNCHANGED <<limit, free, conn, stop, acceptLoop, stoppedResolved, path>>
                    ELSE PeerSends(E.q)
-T_PeerSendFailed == Ev("PeerSendFailed") /\ UNCHANGED <<vars, got>>
-T_HStart == Ev("HStart") /\ E.q \in Calls /\ HandlerStarts(E.q) /\ UNCHANGED got
-T_HFinish == Ev("HFinish") /\ HandlerFinishes(E.q) /\ UNCHANGED got
-T_Recv == Ev("Recv") /\ E.q \in Calls /\ call[E.q] = "written" /\ E.q \notin got /\ got' = got \cup {E.q} /\ UNCHANGED vars
-T_PeerDrop == Ev("PeerDrop") /\ Finish(E.c, "reset") /\ UNCHANGED got
-T_Stop == Ev("Stop") /\ Stop /\ UNCHANGED got
-T_StopAgain == Ev("StopAgain") /\ stop /\ UNCHANGED <<vars, got>>
-T_StoppedResolved == Ev("StoppedResolved") /\ StoppedResolves /\ UNCHANGED got
-T_Eof == Ev("Eof") /\ conn[E.c] = "done" /\ UNCHANGED <<vars, got>>
+T_PeerSendFailed == Ev("PeerSendFailed") /\ UNCHANGED <<vars, got, noread>>
+T_HStart == Ev("HStart") /\ E.q \in Calls /\ HandlerStarts(E.q) /\ UNCHANGED <<got, noread>>
+T_HFinish == Ev("HFinish") /\ HandlerFinishes(E.q) /\ UNCHANGED <<got, noread>>
+T_Recv == Ev("Recv") /\ E.q \in Calls /\ call[E.q] = "written" /\ E.q \notin got /\ got' = got \cup {E.q} /\ UNCHANGED <<vars, noread>>
+T_PeerDrop == Ev("PeerDrop") /\ Finish(E.c, "reset") /\ UNCHANGED <<got, noread>>
+T_Stop == Ev("Stop") /\ Stop /\ UNCHANGED <<got, noread>>
+T_StopAgain == Ev("StopAgain") /\ stop /\ UNCHANGED <<vars, got, noread>>
+T_StoppedResolved == Ev("StoppedResolved") /\ StoppedResolves /\ UNCHANGED <<got, noread>>
+T_Eof == Ev("Eof") /\ conn[E.c] = "done" /\ UNCHANGED <<vars, got, noread>>
+T_EofAbort == Ev("EofAbort") /\ noread' = noread \cup {E.c} /\ UNCHANGED <<vars, got>>
 (* everything the spec counts as handed to the transport has arrived at a peer that was still reading *)
-T_End == /\ Ev("End") /\ UNCHANGED <<vars, got>>
-         /\ \A q \in Calls : call[q] = "written" => q \in got
+T_End == /\ Ev("End") /\ UNCHANGED <<vars, got, noread>>
+         /\ \A q \in Calls : call[q] = "written" /\ ConnOfCall[q] \notin noread => q \in got
          /\ (stop => stoppedResolved)
 
-Silent == /\ silent < MaxSilent /\ silent' = silent + 1 /\ l' = l /\ l <= Len(Rec) /\ UNCHANGED got
+Silent == /\ silent < MaxSilent /\ silent' = silent + 1 /\ l' = l /\ l <= Len(Rec) /\ UNCHANGED <<got, noread>>
           /\ \/ \E q \in Calls : ReaderTakes(q) \/ Enqueue(q) \/ WriterSends(q)
              \/ AcceptStops \/ AcceptDone
              \/ \E c \in Conns : ConnNoticesStop(c) \/ ConnDone(c)
 TNext == T_Reset \/ T_Open \/ T_PeerSend \/ T_PeerSendFailed \/ T_HStart \/ T_HFinish \/ T_Recv \/ T_PeerDrop \/ T_Stop \/ T_StopAgain \/ T_StoppedResolved
-         \/ T_Eof \/ T_End \/ Silent
+         \/ T_Eof \/ T_EofAbort \/ T_End \/ Silent
 Progress == TLCSet(1, IF l > TLCGet(1) THEN l ELSE TLCGet(1))
 Accepted == IF TLCGet(1) = Len(Rec) + 1 THEN TRUE
             ELSE /\ PrintT(<<"UNMATCHED", TLCGet(1), ToJson(Rec[TLCGet(1)])>>) /\ FALSE
-TView == <<View, l, silent, got>>
+TView == <<View, l, silent, got, noread>>
 =============================================================================
